@@ -34,6 +34,7 @@ DenRun(pr, b, pc, chain, level, vals, modes) ==
          IN (CASE ins.p = "add" -> cont(DV(PAdd(a[1].p, a[2].p), tn, po))
               [] ins.p = "mul" -> cont(DV(PMul(a[1].p, a[2].p), tn, po))
               [] ins.p = "neg" -> cont(DV(PNeg(a[1].p), tn, po))
+              [] ins.p = "take" -> cont(DV(a[1].p, tn, po))
               [] ins.p = "nd"  -> cont(DV(PConst(PEval(a[1].p, vals)), {}, po))
               [] ins.p = "user" ->
                    \* product primitive with a registered rule table: a missing rule for a traced argument raises; an argument
